@@ -372,6 +372,43 @@ def h20_fail_near_stop(S):
                 info=f"failure +{a} steps, signal +{b} steps: worker still running, endpoint answered {out['probe']}")
 
 
+def h20_endpoint_bytes(S):
+    """The configured endpoint, as a client writes it on the wire (UTF-8), answers 200; any other path 404 - also for
+    endpoint settings outside ASCII."""
+    from repid import Job, Router, Worker
+    from repid.converter import BasicConverter
+    from repid.health_check_server import HealthCheckServerSettings
+
+    endpoint = ["/healthz", "/état", "/здоровье", "/health-✓"][S.pick("endpoint", 4)]     # (no spaces: a request line has none inside its target)
+    S.tag("endpoint", endpoint)
+    out = {}
+
+    async def main(loop):
+        w = World()
+        await w.open(record=False)
+        r = Router()
+
+        @r.actor(converter=BasicConverter)
+        async def job():
+            await asyncio.sleep(Fraction(50, 1000))
+
+        await Job("job", id_="m1", _connection=w.conn).enqueue()
+        worker = Worker(routers=[r], handle_signals=[], _connection=w.conn, graceful_shutdown_time=1.0, messages_limit=1, run_health_check_server=True,
+                        health_check_server_settings=HealthCheckServerSettings(address="127.0.0.1", port=8099, endpoint_name=endpoint))
+        task = asyncio.create_task(worker.run())
+        await asyncio.sleep(Fraction(10, 1000))
+        srv = loop.servers[0]
+        req = lambda path: [b"GET " + path.encode("utf-8") + b" HTTP/1.1\r\nHost: localhost\r\n\r\n"]
+        out["own"] = _probe(srv, req(endpoint))
+        out["other"] = _probe(srv, req(endpoint + "x"))
+        await task
+
+    run_async(main)
+    S.cover("endpoint-bytes")
+    S.check("configured-endpoint-answers-200", out["own"] == "200", info=f"GET {endpoint!r} (UTF-8 on the wire) answered {out['own']}")
+    S.check("any-other-path-answers-404", out["other"] == "404", info=str(out["other"]))
+
+
 def h20_lifetime(S):
     """The port is open exactly while the worker runs - also while in-flight actors finish gracefully."""
     from repid import Job, Router, Worker
@@ -514,6 +551,10 @@ HARNESSES = [
             functions=["connections/rabbitmq/consumer.py:_RabbitConsumer.consume", "connections/rabbitmq/consumer.py:_RabbitConsumer.start",
                        "connections/rabbitmq/utils.py:_Consumers.pop", "_runner.py:_Runner.run_one_queue"],
             covers=["server-side-cancel"], stubs=["fake AMQP server: Basic.Cancel from the server, basic.consume on a missing queue fails like RabbitMQ (404 NOT_FOUND)"]),
+    Harness(name="H20-endpoint-bytes", scenario=h20_endpoint_bytes,
+            bounds={"endpoint setting": "four concrete values, three of them outside ASCII", "request": "the endpoint in UTF-8 bytes; the endpoint plus one character"},
+            functions=["health_check_server.py:_HttpServerProtocol.data_received"], covers=["endpoint-bytes"],
+            stubs=["captured protocol factory; here the bytes are real (the strx parse harnesses treat bytes.decode as a stub)"]),
     Harness(name="H20-lifetime", scenario=h20_lifetime, workers=8,
             bounds={"job duration": "any real in [1, 10] ms", "probe": "at any real instant in [0, 12] ms", "worker": "messages_limit=1; optionally run a second time"},
             functions=["worker.py:Worker.run", "health_check_server.py:HealthCheckServer.stop"], covers=["lifetime", "probed-while-running"]),
